@@ -3412,6 +3412,20 @@ class _Normalizer:
             body = _body(fi.node)
             if not any(isinstance(n, ast.Yield) for st in body for n in ast.walk(st)):
                 return None
+            if any(isinstance(n, ast.Return) for st in body for n in ast.walk(st)):
+                # ``return`` in a generator ends the generation: the statements after an early exit move into the arms that go on
+                if any(isinstance(n, ast.Return) and n.value is not None for st in body for n in ast.walk(st)):
+                    return None
+                nb = _eliminate_returns(copy.deepcopy(body))
+                if nb is None:
+                    return None
+                from .srcmodel import FuncInfo
+                node2 = copy.copy(fi.node)
+                doc = [x for x in fi.node.body[:1] if isinstance(x, ast.Expr) and isinstance(x.value, ast.Constant) and isinstance(x.value.value, str)]
+                node2.body = doc + nb
+                fi2 = FuncInfo(fi.module, fi.cls, fi.name, node2, fi.kind, fi.parent)
+                fi = fi2
+                body = nb
             if any(isinstance(n, (ast.Return, ast.YieldFrom, ast.Global, ast.Nonlocal, ast.Lambda, ast.FunctionDef, ast.ClassDef))
                    for st in body for n in ast.walk(st)):
                 return None
@@ -3539,6 +3553,11 @@ class _Normalizer:
                 if target is None:
                     break
                 hit = first_helper_call(target, pure_only=hdr is not None and not isinstance(st, ast.For))
+                if hit is None and isinstance(st, ast.If):
+                    # a helper with statements of its own in an ``if`` test: only when its call is the first thing evaluated
+                    h2 = first_helper_call(target, pure_only=False)
+                    if h2 is not None and _evaluated_first(st.test, h2[0]):
+                        hit = h2
                 if hit is None:
                     break
                 call, (fi, recv) = hit
